@@ -2,7 +2,7 @@
 from ..core import graph, Call, peel, leaves, show, N
 from ..util import *
 from ..atomic import atomic_method
-from .cb_common import CB, CRATE, STATE_ENUM, check_no_evict_in_half_open, check_window_dispatch, check_stats_partition
+from .cb_common import cb_view, CB, CRATE, STATE_ENUM, check_no_evict_in_half_open, check_window_dispatch, check_stats_partition
 
 EXPLANATION = (
     "History equivalence with the documented machine (window arithmetic, rates vs thresholds) is numeric and is "
@@ -39,8 +39,9 @@ EXPECTED = {
 def run(facts, tr, rep):
     # service-level rules on the shallow view (free helpers, async helpers and glue methods inlined; the circuit's own
     # methods stay calls and are found by role); clauses about one circuit method use its fully inlined body
+    facts0, tr0 = facts, tr
     facts, tr = facts.shallow, tr.shallow
-    cb = CB(facts, tr, rep)
+    cb, facts, tr = cb_view(facts0, tr0, rep)
     if not cb.ok or cb.transition is None:
         rep.ob("C04.VIEWS", "%s|state-writers" % CRATE, False, "-",
                "state field is not written by exactly one function (writers: %s)" % sorted({w[0].def_ for w in getattr(cb, 'state_writes', [])}))
@@ -56,6 +57,8 @@ def run(facts, tr, rep):
         stores = [c for c in g.calls() if atomic_method(c) == "store" and "Atomic::<u8>" in (c.def_ or "")]
         all_stores = []
         for b in facts.crates[CRATE].bodies:
+            if facts.absorbed(b):
+                continue        # a helper of the transition function inlined into it is represented by its copy
             for c in graph(b).calls():
                 if atomic_method(c) == "store" and "Atomic::<u8>" in (c.def_ or ""):
                     all_stores.append((b, c))
@@ -283,10 +286,10 @@ def run(facts, tr, rep):
             fty = crate.types[f["ty"]]["s"]
             if f["name"] in (cb.state_field, cb.atomic_field):
                 continue
-            if fty == "usize" or fty.startswith("alloc::collections::vec_deque::VecDeque"):
+            if fty == "usize" or fty.startswith("alloc::collections::vec_deque::VecDeque") or _is_tally_struct(facts, crate, f["ty"]):
                 if _clears_on_all_paths(facts, tr, T, cb, f["name"], fty, from_bb=None, must_reach_after_state_write=True):
                     window_fields.append((f["name"], fty))
-    rep.floor("C04.window-fields", len(window_fields), 5)
+    rep.floor("C04.window-fields", len(window_fields), 2)     # the count tally (one field per counter, or one tally struct) and the records
     reset = cb.by_role("reset")
     if reset is None:
         rep.anchor_missing("Circuit::reset")
@@ -325,6 +328,53 @@ def _in_obs(g, e):
     return in_observability_macro(g.term(e["bb"]))
 
 
+def _is_tally_struct(facts, crate, ty):
+    """a workspace struct all of whose fields are integers (the counters of a window grouped into one value)"""
+    t = crate.types[ty]
+    d = t.get("def")
+    if not d or not d.startswith(CRATE):
+        return False
+    adt = facts.adt(d)
+    if adt is None or len(adt.get("variants", [])) != 1 or not adt["variants"][0]["fields"]:
+        return False
+    return all(crate.types[f["ty"]]["s"] in ("usize", "u64", "u32", "u16", "u8") for f in adt["variants"][0]["fields"])
+
+
+def _is_zero_struct_value(facts, tr, val):
+    """`T::default()` of a derived Default, or a struct literal of zero constants"""
+    if val[0] == "call":
+        c = tr.call_of(val)
+        if c.def_ != "core::default::Default::default":
+            return False
+        for d in c.targets_def():
+            hb = facts.bodies.get(d)
+            if hb is None:
+                continue
+            # derived Default of an all-integer struct: every field is Default::default() of an integer, i.e. 0
+            rets = ret_assigns(tr, hb)
+            return bool(rets) and all(_is_zero_struct_value(facts, tr, peel(n)) or peel(n)[0] == "agg" for (_i, _j, n) in rets) and \
+                all(_agg_all_zero(facts, tr, peel(n)) for (_i, _j, n) in rets if peel(n)[0] == "agg")
+        return False
+    if val[0] == "agg":
+        return _agg_all_zero(facts, tr, val)
+    return False
+
+
+def _agg_all_zero(facts, tr, node):
+    b2, rv = tr.agg_of(node)
+    if not rv["ops"]:
+        return False
+    for k, o in enumerate(rv["ops"]):
+        v = peel(tr.expand(tr.operand(b2, o, (node[3], node[4]))))
+        if v[0] == "const" and (v[1] in ("0", "0_usize") or str(v[1]).startswith("0_")):
+            continue
+        if v[0] == "call" and tr.call_of(v).def_ == "core::default::Default::default" and "core::default::Default>::default" in (tr.call_of(v).path or "") \
+                and any(t in tr.call_of(v).path for t in ("<usize as", "<u64 as", "<u32 as", "<u16 as", "<u8 as")):
+            continue
+        return False
+    return True
+
+
 def _clears_on_all_paths(facts, tr, body, cb, fname, fty, from_bb=None, must_reach_after_state_write=False, depth=0):
     """every normal path entry->return passes a block that zeroes/clears the field (directly, or through a
     local callee that does so on all of its paths — the transition fn is NOT accepted because of its
@@ -335,6 +385,8 @@ def _clears_on_all_paths(facts, tr, body, cb, fname, fty, from_bb=None, must_rea
         if b is body:
             val = peel(tr.stmt_value(body, i, j))
             if val[0] == "const" and val[1] in ("0", "0_usize"):
+                clear_blocks.add(i)
+            elif _is_zero_struct_value(facts, tr, val):
                 clear_blocks.add(i)
     for c in g.calls():
         if c.name == "clear" and c.args:
